@@ -1,4 +1,6 @@
+pub mod adsb;
 pub mod bits;
 pub mod cprenc;
 pub mod enc;
 pub mod ev;
+pub mod geo_gen;
